@@ -255,7 +255,11 @@ pub fn gen(rng: &mut ChaCha20Rng, n: usize, thorough: bool) -> Vec<Case> {
                 let mut fes: Vec<u8> = data.iter().copied().bytes_to_fes().map(|f| f.to_u8()).collect();
                 if rng.gen_bool(0.5) { fes.push(rng.gen_range(0..32)); } else if let Some(l) = fes.last_mut() { *l |= 1; }
                 (encode_fes(hrp, Some(ver), &fes, good), "enc-padding") }
-            7 => (encode_bytes(["bc", "tb", "rrr", "e", "lqq", "EX"][rng.gen_range(0..6)], ver, &data, good), "enc-foreign-hrp"),
+            7 => if i % 20 < 10 { (encode_bytes(["bc", "tb", "rrr", "e", "lqq", "EX"][rng.gen_range(0..6)], ver, &data, good), "enc-foreign-hrp") } else {
+                // a foreign prefix that CONTAINS the separator: a network's prefix, '1', more characters ("ex1x1q..."): the human-readable part ends at the
+                // LAST '1' (BIP173), so this names no network although it starts like one (seeded C06-r6-1: prefix cut at the first '1')
+                let (v, d): (u8, Vec<u8>) = if i % 40 < 30 { let mut d = Vec::new(); if blinded_hrp { d.extend_from_slice(&rand_blinder(rng).serialize()); } d.extend_from_slice(&rbytes(rng, [20usize, 32][i % 2])); (if i % 2 == 0 { 0 } else { 1 }, d) } else { (ver, data.clone()) };
+                (encode_bytes(&format!("{}1{}", hrp, ["x", "q", "1", "lq", "ex1"][rng.gen_range(0..5)]), v, &d, required_ck(v, blinded_hrp)), "enc-foreign-hrp-with-separator") },
             8 => (encode_fes(hrp, None, &[], good), "enc-empty-data"),
             _ => (encode_bytes(hrp, ver, &data, good).to_uppercase(), "enc-uppercase"),
         };
